@@ -34,7 +34,7 @@ type Arg struct {
 	Text   string   `json:"text"` // argument as typed, relative to the invocation directory
 	Hazard string   `json:"hazard,omitempty"`
 	Feats  []string `json:"features"`
-	Own    string   `json:"own_line,omitempty"` // pre-existing line for the same pattern: k1-text | k2-lockable | k3-foreign-filter
+	Own    string   `json:"own_line,omitempty"` // pre-existing line with the same pattern text: k1-text | k2-lockable | k3-foreign-filter (file of the invocation directory), parent-* (top-level file while invoked from a sub-directory)
 }
 
 type Step struct {
@@ -450,7 +450,7 @@ func featClass(a Arg) string {
 	keep := []string{}
 	for _, f := range a.Feats {
 		switch f {
-		case "space", "hash", "backslash", "globchars", "dquote", "nonascii", "slash", "doublestar", "anchored", "literal", "edge-space", "class", "qmark":
+		case "space", "hash", "leading-hash", "backslash", "globchars", "dquote", "nonascii", "slash", "doublestar", "anchored", "literal", "edge-space", "class", "qmark":
 			keep = append(keep, f)
 		}
 	}
@@ -850,6 +850,7 @@ var kindTable = []string{
 	"pattern-rich", "two-args", "hazard", "pattern-space", "filename-both",
 	"pattern", "filename-clean", "pattern-rich", "filename-esc", "own-line",
 	"pattern-rich", "two-args", "hazard", "filename-glob", "own-hazard",
+	"related-args", "parent-own-line",
 }
 
 var hazards = []string{trigBang, trigDquote, trigTab, trigBracketSpc}
@@ -903,6 +904,29 @@ func genCase(seed int64, idx int) Case {
 		if c.Args[0].Text == c.Args[1].Text {
 			c.Args = c.Args[:1]
 		}
+	case "related-args":
+		// two arguments with the same last component at different depths: "x*.bin" and
+		// "assets/x*.bin" are different patterns and must not be taken for one another
+		if r.Intn(2) == 0 {
+			p := genPattern(r, r.Intn(2) == 0, false)
+			p = strings.TrimPrefix(strings.TrimPrefix(p, "/"), "**/")
+			c.Args = []Arg{mk("pattern", p, ""), mk("pattern", pick(r, []string{"assets/", "a b/", "k/m/"})+p, "")}
+		} else {
+			nm := genFilename(r, nameFocus(r.Intn(2))) // clean or glob
+			c.Args = []Arg{mk("filename", nm, ""), mk("filename", pick(r, []string{"assets/", "deep/", "k/m/"})+nm, "")}
+		}
+		if r.Intn(2) == 0 {
+			c.Args[0], c.Args[1] = c.Args[1], c.Args[0]
+		}
+	case "parent-own-line":
+		// invoked from a sub-directory while the TOP-LEVEL file holds a line with the same
+		// pattern text and no LFS filter: a different pattern (other directory), must be tracked
+		if c.Dir == "" {
+			c.Dir = dirs[3+r.Intn(len(dirs)-3)]
+		}
+		a := mk("pattern", genPattern(r, false, false), "")
+		a.Own = pick(r, []string{"parent-lockable", "parent-foreign-filter", "parent-text"})
+		c.Args = []Arg{a}
 	case "hazard":
 		hz := hazards[(idx/len(kindTable))%len(hazards)]
 		n := genHazardName(r, hz)
@@ -950,7 +974,23 @@ func genCase(seed int64, idx int) Case {
 			own = c.Args[0].Text + " filter=foo"
 		}
 	}
-	if c.Dir == "" {
+	parentOwn := ""
+	switch c.Args[0].Own {
+	case "parent-lockable":
+		parentOwn = c.Args[0].Text + " lockable"
+	case "parent-foreign-filter":
+		parentOwn = c.Args[0].Text + " filter=foo"
+	case "parent-text":
+		parentOwn = c.Args[0].Text + " text myattr=parent"
+	}
+	if parentOwn != "" {
+		c.PreRoot = buildPre(r, c.PreKind, true, parentOwn)
+		dirKind := c.PreKind
+		if r.Intn(2) == 0 {
+			dirKind = "absent"
+		}
+		c.PreDir = buildPre(r, dirKind, false, "")
+	} else if c.Dir == "" {
 		c.PreRoot = buildPre(r, c.PreKind, true, own)
 	} else {
 		rootKind := c.PreKind
